@@ -175,6 +175,27 @@ def dump_delay(d):
     raise ValueError("unknown delay class " + n)
 
 
+def props_from_spec(props, spec, M):
+    """Mass-action propensities of the model job are built from the reaction *definition* (reactant names of the
+    specification, in order), not from the counts and the order the implementation's object stores: the model's
+    own constructor (`createMassAction`) derives multiplicities and the volume exponent.  Only the index of the rate
+    parameter is read off the object (numeric constants become dummy parameters)."""
+    if spec is None:
+        return props
+    si = M.get_species2index()
+    out = list(props)
+    for j, r in enumerate(spec.get("reactions", [])):
+        if j >= len(out):
+            break
+        if isinstance(r, dict):
+            ptype, reactants = r["prop"]["type"], r["reactants"]
+        else:
+            ptype, reactants = r[2], r[0]
+        if ptype == "massaction" and out[j]["type"] in ("massaction", "massaction_raw"):
+            out[j] = {"type": "massaction", "k": out[j]["k"], "reactants": [int(si[x]) for x in reactants if x != ""]}
+    return out
+
+
 TWO_PI = 2.0 * 3.141592653589793238462643383279502884
 
 
@@ -196,7 +217,7 @@ def sim_job(M, kind, times, seed, dt, t0=0.0, safe=False, num="float", x0=None, 
     st = M.__getstate__()
     rules = st[6]
     job = {"op": "sim", "num": num, "kind": kind, "nSpecies": int(U.shape[0]),
-           "props": [dump_prop(q, enc) for q in M.get_propensities()],
+           "props": props_from_spec([dump_prop(q, enc) for q in M.get_propensities()], spec, M),
            "U": [[int(v) for v in U[:, j]] for j in range(U.shape[1])],
            "D": [[int(v) for v in D[:, j]] for j in range(D.shape[1])],
            "rules": [dump_rule(r, enc) for r in rules],
